@@ -592,7 +592,8 @@ class Gen:
         }
         lcd_calls = [f"write({small()}, 0, {txt()})", f"line(0, {txt()})", f"line(0, {txt()}, align='center', clear_row=False)", f"message({txt()}, {txt()})", f"message({txt()})", "clear()",
                      f"display({b()})", f"backlight({b()})", f"brightness({i()})", f"glyph({self.int_lit(0, 7)}, [1, 2, 4, 8, 16, 31, 0, 21])",
-                     f"progress(0, {i()}, 100)", f"progress(0, {i()}, {self.int_lit(1, 200)}, width={self.int_lit(1, 20)}, style={self.choice(['block', 'hash', 'pipe', 'dot'])!r}, label={txt()})",
+                     f"progress(0, {i()}, 100)", f"progress(0, {i()}, {self.int_lit(1, 200)}, style={self.choice(['block', 'hash', 'pipe', 'dot'])!r})",
+                     f"progress(0, {i()}, 50, width={self.int_lit(1, 20)})", f"progress(0, {i()}, {self.int_lit(1, 200)}, width={self.int_lit(1, 20)}, style={self.choice(['block', 'hash', 'pipe', 'dot'])!r}, label={txt()})",
                      f"animate({self.choice(['scroll', 'blink', 'typewriter', 'bounce'])!r}, 0, {txt()}, speed_ms={small()}, loop={self.choice(['True', 'False'])})"]
         opts = calls.get(k)
         if opts is None:
